@@ -832,7 +832,12 @@ macro_rules! ubig_float_conversions {
                 if exp >= 0 {
                     result <<= exp as usize;
                 } else {
-                    result >>= (-exp) as usize;
+                    let shift = (-exp) as usize;
+                    if result.trailing_zeros().map_or(false, |zeros| zeros < shift) {
+                        // the float has a fractional part
+                        return Err(ConversionError::LossOfPrecision);
+                    }
+                    result >>= shift;
                 }
                 Ok(result)
             }
@@ -868,7 +873,12 @@ macro_rules! ibig_float_conversions {
                 if exp >= 0 {
                     result <<= exp as usize;
                 } else {
-                    result >>= (-exp) as usize;
+                    let shift = (-exp) as usize;
+                    if result.trailing_zeros().map_or(false, |zeros| zeros < shift) {
+                        // the float has a fractional part
+                        return Err(ConversionError::LossOfPrecision);
+                    }
+                    result >>= shift;
                 }
                 Ok(result)
             }
